@@ -126,6 +126,10 @@ fn http(port: u16, method: &str, path: &str, content_type: Option<&str>, body: &
     match stream.read_to_end(&mut buf) {
         Ok(_) => {}
         Err(e) => {
+            if matches!(e.kind(), std::io::ErrorKind::WouldBlock | std::io::ErrorKind::TimedOut) {
+                // the client gave up waiting: says nothing about the server (loaded machine)
+                return Outcome::Closed(format!("client-timeout after {}s", timeout_s));
+            }
             if buf.is_empty() {
                 return Outcome::Closed(format!("read: {}", e));
             }
@@ -309,6 +313,9 @@ fn judge_event(e: &Event, valid: &[ValidInstance], out: &mut CaseOut, phase: &st
             if *status != 200 || body.as_slice() != b"Healthy" {
                 out.viol("C18", "health.wrong_answer", format!("GET /health answered {} '{}' ({})", status, String::from_utf8_lossy(body), phase));
             }
+        }
+        (_, Outcome::Closed(why)) if why.starts_with("client-timeout") => {
+            out.inconclusive.push(format!("client gave up waiting for a {} request ({})", e.kind.name(), why));
         }
         (Kind::Health, Outcome::Closed(why)) => {
             out.viol("C18", "health.no_answer", format!("GET /health got no answer: {} ({})", why, phase));
